@@ -128,7 +128,27 @@ fn walk<'a>(root: &'a Value, c: &'a Value, chain: &mut Vec<&'a Value>, at: &str,
             }
             *refs += 1;
             // a divert right after the "thread" command is a thread start
-            let kind = if key == "->" && i > 0 && items[i - 1].as_str() == Some("thread") { "thread->" } else { key };
+            // ... and one between "str" and "/str" of its container sits inside string / choice-text
+            // evaluation
+            let in_str = {
+                let mut depth = 0i32;
+                for it in &items[..i] {
+                    match it.as_str() {
+                        Some("str") => depth += 1,
+                        Some("/str") => depth -= 1,
+                        _ => {}
+                    }
+                }
+                depth > 0
+            };
+            let kind_s: String = if key == "->" && i > 0 && items[i - 1].as_str() == Some("thread") {
+                "thread->".into()
+            } else if in_str {
+                format!("in-string:{key}")
+            } else {
+                key.to_string()
+            };
+            let kind = kind_s.as_str();
             match resolve(root, chain, p) {
                 Ok(is_c) => {
                     if need_container && !is_c {
